@@ -4,8 +4,12 @@ package c09
 
 import (
 	"bytes"
+	"encoding/hex"
 	"fmt"
 	"math/big"
+	"os"
+	"path/filepath"
+	"strings"
 	"testing"
 
 	"pgregory.net/rapid"
@@ -236,3 +240,53 @@ func propRFC6979(t *rapid.T) {
 }
 
 func TestC09_RFC6979(t *testing.T) { rapid.Check(t, propRFC6979) }
+
+// TestC09_ShortNonceCorpus replays a corpus of (private key, digest) pairs
+// whose RFC 6979 nonce has many leading zero bits (found once by search with
+// cmd/noncesearch -- such nonces come out of HMAC and cannot be steered, the
+// 32-bit ones cost 2^32 trials).  The deterministic signature must equal the
+// reference RFC 6979 signature there too: code that treats a "short" nonce
+// specially (skips it, pads it, takes another path) breaks exactness only on
+// these inputs.  The hedged mode must also produce a valid signature.
+func TestC09_ShortNonceCorpus(t *testing.T) {
+	raw, err := os.ReadFile(filepath.Join(os.Getenv("VERIF_ROOT"), "harness", "c09", "testdata", "short_nonces.txt"))
+	if err != nil {
+		raw, err = os.ReadFile(filepath.Join("testdata", "short_nonces.txt"))
+	}
+	if err != nil {
+		t.Fatalf("HARNESS-INCONCLUSIVE: corpus missing: %v", err)
+	}
+	n := 0
+	for _, line := range strings.Split(string(raw), "\n") {
+		f := strings.Fields(line)
+		if len(f) != 4 || strings.HasPrefix(line, "#") {
+			continue
+		}
+		dB, _ := hex.DecodeString(f[1])
+		digest, _ := hex.DecodeString(f[2])
+		kB, _ := hex.DecodeString(f[3])
+		d := ref.Int(dB)
+		if got := ref.NewRFC6979(d, digest).Next(); !bytes.Equal(got, kB) {
+			t.Fatalf("HARNESS-INCONCLUSIVE: corpus line %q does not match the reference generator", line)
+		}
+		wr, ws, wid, _ := ref.RFC6979Sign(d, digest)
+		if ls, neg := ref.LowS(ws); neg {
+			ws, wid = ls, wid^1
+		}
+		r, s, v, err := lib.PrivKey(d).SignRaw(secec.RFC6979SHA256(), digest)
+		if err != nil {
+			t.Fatalf("SignRaw(RFC6979) failed: %v", err)
+		}
+		if lib.ScInt(r).Cmp(wr) != 0 || lib.ScInt(s).Cmp(ws) != 0 || int(v) != wid {
+			t.Fatalf("RFC 6979 mismatch where the nonce has %s leading zero bits (k=%s): d=%x digest=%x: got (%x,%x,%d) want (%x,%x,%d)",
+				f[0], f[3], d, digest, lib.ScInt(r), lib.ScInt(s), v, wr, ws, wid)
+		}
+		n++
+		stat.Case("short-nonce-corpus", []string{"leading-zero-bits:" + f[0]}, true, []byte(line), func() any {
+			return map[string]any{"leading_zero_bits": f[0], "d": f[1], "digest": f[2], "k": f[3]}
+		})
+	}
+	if n < 8 {
+		t.Fatalf("HARNESS-INCONCLUSIVE: corpus has only %d usable lines", n)
+	}
+}
